@@ -130,7 +130,10 @@ func runC03(args []string) {
 		}
 		c.m.VerifManagementActions().SetRandomNumberGenerator(crand.New(&c03Script{q: q}))
 		outcome := "ok"
-		panicked, what := protect(func() { c.m.Randomize() })
+		panicked, what := protect(func() {
+			withWatchdog(20, "CoreModel.Randomize under a limit", J{"limit": J{"var": k, "max": limit}, "start": start, "picks": picks},
+				func() { c.m.Randomize() })
+		})
 		if panicked {
 			switch {
 			case strings.Contains(what, "Attempt limit reached"):
@@ -185,42 +188,44 @@ func runC03(args []string) {
 				trace = append(trace, e)
 			}
 			panicked, what := protect(func() {
-				if family == "kirkpatrick" {
-					ex := kirkpatrick.New()
-					ex.SetLogHandler(new(loggers.NullLogger))
-					ex.SetModel(c.m)
-					ex.SetParameters(parameters.Map{"DecisionVariable": "SedimentProduction", "StartingTemperature": 50.0, "CoolingFactor": 0.99})
-					ex.Initialise()
-					record(c, nil)
-					for it := 0; it < iters; it++ {
-						ex.TryRandomChange()
-						ex.CoolDown()
+				withWatchdog(120, "optimisation run under a limit ("+family+")", J{"family": family, "limit": J{"var": k, "max": limit}}, func() {
+					if family == "kirkpatrick" {
+						ex := kirkpatrick.New()
+						ex.SetLogHandler(new(loggers.NullLogger))
+						ex.SetModel(c.m)
+						ex.SetParameters(parameters.Map{"DecisionVariable": "SedimentProduction", "StartingTemperature": 50.0, "CoolingFactor": 0.99})
+						ex.Initialise()
 						record(c, nil)
-					}
-				} else {
-					ex := suppapitnarm.New()
-					ex.SetLogHandler(new(loggers.NullLogger))
-					ex.SetModel(c.m)
-					ex.SetParameters(parameters.Map{"StartingTemperature": 50.0, "CoolingFactor": 0.99,
-						"InitialReturnToBaseStep": int64(7), "MinimumReturnToBaseRate": int64(2), "ReturnToBaseAdjustmentFactor": 0.9})
-					ex.Initialise()
-					cur := &catchInst{m: nil}
-					_ = cur
-					getArch := func() []*archive.CompressedModelState {
-						attrs := ex.EventAttributes(observer.FinishedAnnealing)
-						v := attrs.Value("ModelArchive")
-						if a, ok := v.(archive.NonDominanceModelArchive); ok {
-							return a.Archive()
+						for it := 0; it < iters; it++ {
+							ex.TryRandomChange()
+							ex.CoolDown()
+							record(c, nil)
 						}
-						return nil
-					}
-					record(c, getArch())
-					for it := 0; it < iters/4; it++ {
-						ex.TryRandomChange()
-						ex.CoolDown()
+					} else {
+						ex := suppapitnarm.New()
+						ex.SetLogHandler(new(loggers.NullLogger))
+						ex.SetModel(c.m)
+						ex.SetParameters(parameters.Map{"StartingTemperature": 50.0, "CoolingFactor": 0.99,
+							"InitialReturnToBaseStep": int64(7), "MinimumReturnToBaseRate": int64(2), "ReturnToBaseAdjustmentFactor": 0.9})
+						ex.Initialise()
+						cur := &catchInst{m: nil}
+						_ = cur
+						getArch := func() []*archive.CompressedModelState {
+							attrs := ex.EventAttributes(observer.FinishedAnnealing)
+							v := attrs.Value("ModelArchive")
+							if a, ok := v.(archive.NonDominanceModelArchive); ok {
+								return a.Archive()
+							}
+							return nil
+						}
 						record(c, getArch())
+						for it := 0; it < iters/4; it++ {
+							ex.TryRandomChange()
+							ex.CoolDown()
+							record(c, getArch())
+						}
 					}
-				}
+				})
 			})
 			if !panicked {
 				runErr = ""
